@@ -1,18 +1,12 @@
 import FeatModel.Model.Proto
-import FeatModel.Model.LA.Convert
-import FeatModel.Model.LA.Clone
+import FeatModel.Model.LA.Chain
 /-! line-protocol driver for the C02 models (chains of conversion / clone / transpose / permute / rebuild);
     the line format is documented in harness/c02/main.cpp -/
 open FeatModel FeatModel.Proto FeatModel.LA
 
 namespace FeatModel.DrvC02
 
-inductive Mat where
-  | csr (A : Csr Rat)
-  | banded (A : Banded Rat)
-  | cscr (A : Cscr Rat)
-  | dense (A : Dense Rat)
-  | bcsr (A : Bcsr Rat)
+abbrev Mat := LA.Mat Rat
 
 def showDense (d : List (List Rat)) : String := " ".intercalate ("D" :: d.flatten.map showRat)
 
@@ -50,11 +44,6 @@ def showK (m : Mat) (mode : CloneMode) : String :=
   let b := fun (x : Bool) => if x then "1" else "0"
   s!"K {b o.1} {b o.2.1} {b o.2.2.1} {b o.2.2.2} "
 
-inductive Outcome where
-  | ok (pre : String) (m : Mat)
-  | abort
-  | bad
-
 def initP : P Mat := do
   let fmt ← tok
   match fmt with
@@ -80,78 +69,48 @@ def initP : P Mat := do
     else pure (.bcsr ⟨bh, bw, r, c, rp.toArray, ci.toArray, v.toArray⟩)
   | _ => throw s!"unknown format {fmt}"
 
-def stepP (m : Mat) : P Outcome := do
+/-- parse one operation token (with its arguments) -/
+def opP : P (Option Op) := do
   let op ← tok
   match op with
-  | "tocsr" =>
-    match m with
-    | .csr A => pure (.ok "" (.csr A))
-    | .banded B => pure (.ok "" (.csr B.toCsr))
-    | .bcsr B => pure (.ok "" (.csr B.toCsr))
-    | .cscr B => match B.toCsr with
-      | some A => pure (.ok "" (.csr A))
-      | none => pure .abort
-    | .dense _ => pure .bad
-  | "tobanded" =>
-    match m with
-    | .csr A => match A.toBanded with
-      | some B => pure (.ok "" (.banded B))
-      | none => pure .abort
-    | .banded B => pure (.ok "" (.banded B))
-    | _ => pure .bad
-  | "tocscr" =>
-    match m with
-    | .csr A => pure (.ok "" (.cscr A.toCscr))
-    | .cscr A => pure (.ok "" (.cscr A))
-    | _ => pure .bad
+  | "tocsr" => pure (some .tocsr)
+  | "tobanded" => pure (some .tobanded)
+  | "tocscr" => pure (some .tocscr)
   | "clone" =>
     let k ← nat
     match k with
-    | 0 => pure (.ok (showK m .shallow) m)
-    | 1 => pure (.ok (showK m .layout) m)
-    | 2 => pure (.ok (showK m .weak) m)
-    | 3 => pure (.ok (showK m .deep) m)
-    | _ => pure .bad
-  | "layout" =>
-    match m with
-    | .dense _ => pure .bad
-    | _ => pure (.ok (showK m .layout) m)
-  | "graph" =>
-    match m with
-    | .csr A => pure (.ok "" (.csr A))
-    | _ => pure .bad
-  | "tr" =>
-    match m with
-    | .csr A => pure (.ok "" (.csr A.transpose))
-    | .dense A => pure (.ok "" (.dense A.transpose))
-    | .bcsr A => pure (.ok "" (.bcsr A.transpose))
-    | _ => pure .bad
-  | "tri" =>
-    match m with
-    | .csr A => pure (.ok "" (.csr A.transpose))
-    | .dense A => pure (.ok "" (.dense A.transpose))
-    | _ => pure .bad
+    | 0 => pure (some (.clone .shallow))
+    | 1 => pure (some (.clone .layout))
+    | 2 => pure (some (.clone .weak))
+    | 3 => pure (some (.clone .deep))
+    | _ => pure none
+  | "layout" => pure (some .layout)
+  | "graph" => pure (some .graph)
+  | "tr" => pure (some .tr)
+  | "tri" => pure (some .tri)
   | "perm" =>
     let p ← natList; let q ← natList
-    match m with
-    | .csr A => match A.permute p.toArray q.toArray with
-      | some B => pure (.ok "" (.csr B))
-      | none => pure .abort
-    | _ => pure .bad
-  | "it" => pure (.ok "" m)
-  | "dt" =>
-    match m with
-    | .csr _ | .dense _ | .banded _ => pure (.ok "" m)
-    | _ => pure .bad
-  | _ => pure .bad
+    pure (some (.perm p.toArray q.toArray))
+  | "it" => pure (some .it)
+  | "dt" => pure (some .dt)
+  | _ => pure none
+
+/-- the aliasing observation printed in front of the dump of a clone / layout rebuild -/
+def prefixOf (m : Mat) : Op → String
+  | .clone mode => showK m mode
+  | .layout => showK m .layout
+  | _ => ""
 
 def stepsP : Nat → Mat → String → P String
   | 0, _, acc => pure acc
   | n + 1, m, acc => do
-    match (← stepP m) with
-    | .ok pre m' => stepsP n m' (acc ++ "| " ++ pre ++ dump m' ++ " ")
-    | .abort => pure "ABORT"
-    | .bad => pure "BAD-OP"
+    match (← opP) with
+    | none => pure "BAD-OP"
+    | some o =>
+      match m.step o with
+      | .ok m' => stepsP n m' (acc ++ "| " ++ prefixOf m o ++ dump m' ++ " ")
+      | .abort => pure "ABORT"
+      | .bad => pure "BAD-OP"
 
 def handle : P String := do
   let it ← nat
